@@ -182,7 +182,7 @@ package inference
 //@ define (triggerOK t) (and (not (= (. t Producer) nil)) (not (= (. t Consumer) nil)) (not (isnil (. t Producer Annotation))) (not (isnil (. t Consumer Annotation))))
 
 //@ func (*Engine).buildFromSingleFullTrigger
-//@ prop C05 C10
+//@ prop C05 C10 C15
 //@ requires (engOK e)
 //@ modifies (map e.primitive.objPathCache) (obj e.inferredMap.mapping) (map e.inferredMap.mapping.inner) (elems e.inferredMap.mapping.Pairs) (obj (omPair e.inferredMap.mapping 0)) (obj (implOf e.inferredMap)) (map (. (implOf e.inferredMap) inner)) (elems (. (implOf e.inferredMap) Pairs)) (obj (omPair (implOf e.inferredMap) 0))
 //@ ensures ok-after (and (engOK e) (sameEngine e))
@@ -407,7 +407,7 @@ package inference
 //@ -- C10: an explicit annotation is handed to the engine as a *BecauseAnnotation explanation of the right polarity
 //@ -- for exactly the annotated site (key, deep flag)
 //@ func (*Engine).ObserveAnnotations$1
-//@ prop C10 C05
+//@ prop C10 C05 C15
 //@ requires (engOK e)
 //@ modifies (map e.primitive.objPathCache) (obj e.inferredMap.mapping) (map e.inferredMap.mapping.inner) (elems e.inferredMap.mapping.Pairs) (obj (omPair e.inferredMap.mapping 0)) (obj (implOf e.inferredMap)) (map (. (implOf e.inferredMap) inner)) (elems (. (implOf e.inferredMap) Pairs)) (obj (omPair (implOf e.inferredMap) 0))
 //@ ensures engine-stays-well-formed (and (engOK e) (sameEngine e))
